@@ -109,6 +109,16 @@ func c10Calls() []c10Call {
 			err := json.Unmarshal([]byte(`[1,2,3]`), &v)
 			return fmt.Sprintf("%v %v", v, err)
 		}},
+		{"Unmarshal(->[][]int) A", func(y func(string), sh *c10Shared) string {
+			var v [][]int
+			err := json.Unmarshal([]byte(`[[1,2],[3],[4,5,6]]`), &v)
+			return fmt.Sprintf("%v %v", v, err)
+		}},
+		{"Unmarshal(->[][]int) B", func(y func(string), sh *c10Shared) string {
+			var v [][]int
+			err := json.Unmarshal([]byte(`[[7],[8,9]]`), &v)
+			return fmt.Sprintf("%v %v", v, err)
+		}},
 		{"Valid+Compact+Indent", func(y func(string), sh *c10Shared) string {
 			var b1, b2 bytes.Buffer
 			e1 := json.Compact(&b1, []byte(` { "a" : [ 1 , 2 ] } `))
@@ -148,3 +158,35 @@ func c10Fresh() *c10Shared {
 	p, _ := json.CreatePath("$.a.b")
 	return &c10Shared{query: q, path: p}
 }
+
+// c10Prologue: calls that fail half-way, run sequentially before the goroutines start. Their
+// error paths are where pooled objects are most easily released twice or in a half-used state.
+func c10Prologue() {
+	cyc := &c10T{A: 1}
+	cyc.E = &c10U{Y: cyc}
+	for _, f := range []func(){
+		func() { var v []int; _ = json.NewDecoder(strings.NewReader(`[1`)).Decode(&v) },
+		func() { var v []int; _ = json.NewDecoder(strings.NewReader(`[1,`)).Decode(&v) },
+		func() { var v [][]int; _ = json.NewDecoder(strings.NewReader(`[[1]`)).Decode(&v) },
+		func() { var v [][]int; _ = json.NewDecoder(strings.NewReader(`[[1],[2`)).Decode(&v) },
+		func() { var v [][]int; _ = json.Unmarshal([]byte(`[[1],[2,`), &v) },
+		func() { var v c10T; _ = json.NewDecoder(strings.NewReader(`{"c":[3`)).Decode(&v) },
+		func() { var v c10T; _ = json.NewDecoder(strings.NewReader(`{"d":{"k":"v"`)).Decode(&v) },
+		func() { var v []int; _ = json.Unmarshal([]byte(`[1,2`), &v) },
+		func() { var v c10T; _ = json.Unmarshal([]byte(`{"c":[3,x]}`), &v) },
+		func() { var v c10U; _ = json.Unmarshal([]byte(`{"y":{"z":[1,}}`), &v) },
+		func() { _, _ = json.Marshal(cyc) },
+		func() { _, _ = json.MarshalIndent(cyc, "", " ") },
+		func() { _ = json.NewEncoder(failWriter{}).Encode(c10U{X: 1}) },
+		func() { var b bytes.Buffer; _ = json.Compact(&b, []byte(`{"a":[1,}`)) },
+	} {
+		func() {
+			defer func() { _ = recover() }()
+			f()
+		}()
+	}
+}
+
+type failWriter struct{}
+
+func (failWriter) Write(p []byte) (int, error) { return 0, fmt.Errorf("write failed") }
